@@ -42,7 +42,7 @@ CLAIMED.update({
              ref="4/C11", technique="contract-based glue obligations (dataflow on the AST) modulo assumed contracts of json/str/numpy; bounded round trips on real files", category="other"),
  "C14": dict(text="Deductive for _plain_bfs and node_connected_component: the returned set is the least set containing the source and closed under the neighbour relation (two loop invariants + one instance of the least-fixpoint induction principle)." + PARTIAL,
              ref="4/C14", technique="contract-based deductive verification (pyvc + z3, loop invariants for BFS); bounded comparison with networkx for paths/clustering/graph builders"),
- "C16": dict(text="Deductive for trivial_hypergraph (exactly the nodes 0..n-1, no edges) on top of add_nodes_from's node-set contract, and for the index decoders _index_to_edge_prod / _index_to_edge_partition: their return expressions are translated from the AST into Lean definitions on every run and Lean's kernel checks that decoding has the spec encoder as left (and, for tuples, right) inverse with every digit in range, i.e. the decodings are bijections onto tuples / block products. _index_to_edge_comb, the random models and the simplicial generators are bounded." + PARTIAL + THIN,
+ "C16": dict(text="Deductive for trivial_hypergraph (exactly the nodes 0..n-1, no edges) on top of add_nodes_from's node-set contract, and for the three index decoders: the return expressions of _index_to_edge_prod / _index_to_edge_partition and the loop nest of _index_to_edge_comb (binomial unranking; the while loop as a fuel-bounded recursion) are translated from the AST into Lean definitions on every run and Lean's kernel checks that decoding has the spec encoder as left (for tuples also right) inverse with every digit in range, resp. that the decoded combination has m strictly increasing entries in [0, n) whose lexicographic rank is the index - i.e. the decodings are bijections onto tuples, block products and combinations. The random models built on them and the simplicial generators are bounded." + PARTIAL + THIN,
              ref="4/C16, 11.6", technique="contract-based deductive verification: pyvc + z3 for the deterministic constructor kernel, AST->Lean 4 definitions with kernel-checked inverse/range theorems for the index decoders; exhaustive decoding tables and seeded generator grid as bounded stand-in", category="other"),
  "C19": dict(text="Deductive for subhypergraph (result frozen and two-way consistent, argument unchanged, on every path) by composition of the adders' contracts, and for Hypergraph.cleanup(connected=False, relabel=False, in_place=True): no singleton edge / no isolated node is left when their removal is requested, proved from the exact effect contracts of remove_edges_from / remove_nodes_from (themselves proved with loop invariants) and the assumed view accessors singletons()/isolates(); copy/dual at invariant level. The set-theoretic definitions of the other derived networks are bounded." + PARTIAL,
              ref="4/C19", technique="contract-based deductive verification (pyvc + z3) by composition of mutator contracts; bounded native oracle for the set-theoretic definitions"),
@@ -53,8 +53,9 @@ CLAIMED.update({
  "C15": dict(text="Deductive for the normalisation count only: the loop of _max_number_of_subfaces is translated from the AST into a Lean fold on every run and Lean's kernel checks that it equals the number of node sets of a maximal face with min_size <= size < max_size (sum of binomial coefficients), and is non-negative. The Trie, maximal-edge detection, the inclusion-exclusion over overlapping maximal faces and the three measures are bounded (brute-force enumeration on exhaustive small hypergraphs)." + PARTIAL + THIN,
              ref="11.8", technique="contract-based deductive verification: AST->Lean 4 definition of the counting loop with kernel-checked closed form; bounded native oracle (brute-force definitions on exhaustive small hypergraphs) for the measures", category="other"),
 })
+CLAIMED["C12"] = dict(text="Glue obligations only: dataflow facts on the ASTs of incidence_matrix (index maps number the iterated ids 0..n-1, the returned maps invert them, every (node, edge) membership appends exactly node_dict[node] / edge_dict[edge] / weight(node, edge, H) to rows / cols / data, sparse and dense assembly use (data, (rows, cols)) with shape (num_nodes, num_edges), maps are returned in (node, edge) order) and of adjacency_matrix (I.dot(I.T), diagonal cleared in both branches, thresholding by s). A wrong flow is refuted; a rewritten shape is undecided unless the oracle shows misbehaviour. Every numeric statement of the property (entries of all matrices, symmetry, row sums, PSD, sparse/dense agreement) is bounded (brute-force construction from members() on exhaustive small hypergraphs x option grid)." + PARTIAL + THIN,
+             ref="11.10", technique="contract-based glue obligations (dataflow on the AST of the only Python-level matrix code) modulo assumed contracts of numpy/scipy; bounded native oracle for every matrix", category="other")
 NA_REASON = {
- "C12": "no contract within reach: every quantity is produced by numpy/scipy operators on arrays (dot, setdiag, diag, eigen-structure, sparse formats); only index-map glue would be provable, too thin to decide the property (a bounded native oracle exists in pyvc/native_oracles.py but is not claimed)",
  "C20": "no contract within reach: the observables are matplotlib collections and networkx float layouts (external libraries, floating point); see DESIGN 7",
 }
 checks = []
